@@ -2,6 +2,7 @@ import PprofVerif.Lemmas.StacksBuild
 import PprofVerif.Lemmas.StacksValid
 import PprofVerif.Lemmas.StacksExample
 import PprofVerif.Lemmas.StacksAggregate
+import PprofVerif.Lemmas.StacksSelect
 /-!
 # C17 — flame-graph stack data is a faithful, self-consistent index of samples
 
@@ -197,5 +198,53 @@ example : (Spec.sampleFrames (Spec.aggregate ⟨false, true, true, true, false, 
     { locationIDs := [2, 2, 3, 1], values := [5], label := [], numLabel := [], numUnit := [] }).map
       (·.map (fun fr => (fr.name, fr.line, fr.inlined))) =
     some [([109], 0, false), ([102], 0, false), ([103], 0, true), ([102], 0, false), ([103], 0, true)] := by decide
+
+/-- Selecting the sample value by name (`si=<name>`, `-sample_index=<name>`) picks a column whose
+type name is byte-for-byte the given text (or the text without the legacy `inuse_` prefix), the
+FIRST such column; no case folding or other normalisation.  (Texts that are numbers are indices,
+the empty text is the default selection — excluded here.) -/
+theorem select_by_name_exact (p : Profile) (sel : Str) (i : Nat) (h : selectIndex p sel = .ok i)
+    (hne : sel ≠ []) (hnum : atoi sel = none) :
+    ∃ t, p.sampleType[i]? = some t ∧ (t.typ = sel ∨ t.typ = trimInuse sel) ∧
+      ∀ j, j < i → ∀ t', p.sampleType[j]? = some t' → t'.typ ≠ sel ∧ t'.typ ≠ trimInuse sel := by
+  simp only [selectIndex, hne, hnum, if_false] at h
+  by_cases he : p.sampleType = []
+  · simp [he] at h
+  · simp only [he, if_false] at h
+    cases hf : firstType (fun t => t = sel || t = trimInuse sel) p.sampleType 0 with
+    | none => simp [hf] at h
+    | some k =>
+      simp only [hf, Outcome.ok.injEq] at h
+      subst h
+      obtain ⟨_, t, h1, h2, h3⟩ := firstType_spec _ _ 0 k hf
+      refine ⟨t, by simpa using h1, by simpa using h2, ?_⟩
+      intro j hj t' ht'
+      have := h3 j (by simpa using hj) t' ht'
+      simpa using this
+
+/-- A name no sample type carries exactly is rejected (an error, never a silent other column). -/
+theorem select_unknown_name_rejected (p : Profile) (sel : Str) (hne : sel ≠ []) (hnum : atoi sel = none)
+    (hno : ∀ t ∈ p.sampleType, t.typ ≠ sel ∧ t.typ ≠ trimInuse sel) :
+    ∃ e, selectIndex p sel = .err e := by
+  simp only [selectIndex, hne, hnum, if_false]
+  by_cases he : p.sampleType = []
+  · exact ⟨"profile has no samples", by simp [he]⟩
+  · simp only [he, if_false]
+    cases hf : firstType (fun t => t = sel || t = trimInuse sel) p.sampleType 0 with
+    | none => exact ⟨_, rfl⟩
+    | some k =>
+      obtain ⟨_, t, h1, h2, _⟩ := firstType_spec _ _ 0 k hf
+      have hm : t ∈ p.sampleType := List.mem_of_getElem? h1
+      have := hno t hm
+      simp [this.1, this.2] at h2
+
+-- non-vacuity: ["Events","events"]: the name "events" selects column 1, "Events" column 0, "EVENTS"
+-- none, "1" is an index, "" the default (last), "inuse_events" is "events"
+example :
+    let ev : Str := [101, 118, 101, 110, 116, 115]
+    let p : Profile := { exProfile with sampleType := [⟨[69, 118, 101, 110, 116, 115], []⟩, ⟨ev, []⟩] }
+    selectIndex p ev = .ok 1 ∧ selectIndex p [69, 118, 101, 110, 116, 115] = .ok 0 ∧
+    (selectIndex p [69, 86, 69, 78, 84, 83]).isOk = false ∧ selectIndex p [49] = .ok 1 ∧
+    selectIndex p [] = .ok 1 ∧ selectIndex p (inusePrefix ++ ev) = .ok 1 ∧ atoi ev = none := by decide
 
 end PV.Props.C17
